@@ -41,7 +41,7 @@ type Elem struct {
 }
 
 type Plan struct {
-	Op      string `json:"op"` // init, resp, cookie, other, batch, tun, uapi, shifths, restart, setnonce
+	Op      string `json:"op"` // init, resp, cookie, other, batch, tun, uapi, shifths, restart, setnonce, agekeys
 	Peer    int    `json:"peer,omitempty"`
 	From    int    `json:"from,omitempty"`
 	Mac1    string `json:"mac1,omitempty"`    // ok, junk
@@ -302,7 +302,7 @@ func (r *run) observe(out cosim.Out, sid int, hid int, newSess *rsess) (string, 
 }
 
 // slotOwner says which peer still HOLDS a session with this receiver index in one of its three keypair
-// slots (previous, current, next).  An index that is merely still present in the index table does not count:
+// slots (previous, current, next) and is younger than 180 s.  An index that is merely still present in the index table does not count:
 // a session the peer has discarded is stale, whatever the table says.
 func (r *run) slotOwner(idx uint32) (int, bool) {
 	for i, q := range r.peers {
@@ -310,8 +310,12 @@ func (r *run) slotOwner(idx uint32) (int, bool) {
 		for _, kp := range []struct {
 			present bool
 			idx     uint32
-		}{{st.Previous.Present, st.Previous.LocalIndex}, {st.Current.Present, st.Current.LocalIndex}, {st.Next.Present, st.Next.LocalIndex}} {
-			if kp.present && kp.idx == idx {
+			age     int64
+		}{{st.Previous.Present, st.Previous.LocalIndex, st.Previous.AgeNanos}, {st.Current.Present, st.Current.LocalIndex, st.Current.AgeNanos},
+			{st.Next.Present, st.Next.LocalIndex, st.Next.AgeNanos}} {
+			// a key older than RejectAfterTime (180 s) is not a live key either (ages are only ever moved by
+			// the 181 s hook: far from the boundary)
+			if kp.present && kp.idx == idx && kp.age < int64(180*time.Second) {
 				return i, true
 			}
 		}
@@ -637,6 +641,14 @@ func (r *run) exec(pl Plan, recs *[]StepRec) bool {
 		out := r.w.InjectBatch(ds...)
 		obs, txt, eps, moved := r.observe(out, 0, 0, nil)
 		rec.Event = fmt.Sprintf("EB %d [%s]", t, strings.Join(els, "; "))
+		rec.Obs, rec.Outs, rec.Eps, rec.Moved, settled = obs, txt, eps, moved, out.Settled
+	case "agekeys":
+		// all keypairs of the peer become older than RejectAfterTime (180 s)
+		pi := pl.Peer % len(r.peers)
+		r.w.Dev.VerifShiftKeypairAges(r.peers[pi].NoisePub(), 181*time.Second)
+		out := r.w.Take()
+		obs, txt, eps, moved := r.observe(out, 0, 0, nil)
+		rec.Event = fmt.Sprintf("EAK %d", keyNum(pi))
 		rec.Obs, rec.Outs, rec.Eps, rec.Moved, settled = obs, txt, eps, moved, out.Settled
 	case "setnonce":
 		// push the send counter of the current keypair over RekeyAfterMessages: the next data packet asks for a new handshake
@@ -982,15 +994,46 @@ func genCrossed(r *mrand.Rand) []Plan {
 	return p
 }
 
+// transport under keys older than 180 s — made by the device as responder or as initiator — from new addresses
+func genStaleKeys(r *mrand.Rand) []Plan {
+	pi := r.Intn(3)
+	var p []Plan
+	if r.Intn(3) == 0 && pi != 2 {
+		p = append(p, handshakeAsInitiator(pi, pi)...)
+	} else {
+		p = append(p, handshakeAsResponder(pi, pi)...)
+		if r.Intn(2) == 0 {
+			p = append(p, batchOf(Elem{Peer: pi, From: pi, Kind: "good"})) // confirmed; else the key stays in next
+		}
+	}
+	if r.Intn(3) == 0 {
+		p = append(p, handshakeAsResponder(pi, r.Intn(len(addrTable)))...)
+	}
+	p = append(p, Plan{Op: "agekeys", Peer: pi})
+	n := 2 + r.Intn(3)
+	for i := 0; i < n; i++ {
+		p = append(p, batchOf(Elem{Peer: pi, From: r.Intn(len(addrTable)), Kind: []string{"good", "good", "jump", "oldsess", "replay"}[r.Intn(5)], Data: r.Intn(3) == 0}))
+	}
+	if r.Intn(2) == 0 {
+		p = append(p, Plan{Op: "shifths", Peer: pi, D: 6}, Plan{Op: "tun", Peer: pi})
+	}
+	// a new handshake brings fresh keys: roaming works again
+	p = append(p, Plan{Op: "init", Peer: pi, From: r.Intn(len(addrTable)), Mac1: "ok", Content: "good"},
+		batchOf(Elem{Peer: pi, From: r.Intn(len(addrTable)), Kind: "good"}), batchOf(Elem{Peer: pi, From: r.Intn(len(addrTable)), Kind: "oldsess"}), Plan{Op: "tun", Peer: pi})
+	return p
+}
+
 func genMix(r *mrand.Rand) []Plan {
 	var p []Plan
 	n := 8 + r.Intn(12)
 	for i := 0; i < n; i++ {
 		pi := r.Intn(3)
 		from := r.Intn(len(addrTable))
-		switch r.Intn(12) {
+		switch r.Intn(13) {
 		case 10:
 			p = append(p, Plan{Op: "restart"})
+		case 12:
+			p = append(p, Plan{Op: "agekeys", Peer: pi})
 		case 11:
 			p = append(p, Plan{Op: "setnonce", Peer: pi}, Plan{Op: "shifths", Peer: pi, D: 6}, Plan{Op: "tun", Peer: pi})
 		case 0, 1:
@@ -1304,7 +1347,7 @@ func main() {
 			f    func(*mrand.Rand) []Plan
 			w    int
 		}{{"roam-transport", genRoamTransport, 4}, {"roam-handshake", genRoamHandshake, 4}, {"initiator-role", genInitiatorRole, 3},
-			{"mixed-batch", genMixedBatch, 3}, {"two-sessions", genTwoSessions, 2}, {"restart", genRestart, 4}, {"crossed", genCrossed, 4}, {"mix", genMix, 4}}
+			{"mixed-batch", genMixedBatch, 3}, {"two-sessions", genTwoSessions, 2}, {"restart", genRestart, 4}, {"crossed", genCrossed, 4}, {"stale-keys", genStaleKeys, 3}, {"mix", genMix, 4}}
 		tot := 0
 		for _, g := range gens {
 			tot += g.w
